@@ -194,7 +194,7 @@ PD_CELLS = CELLS + ["a", "A1", "zz"]
 PD_SMALL = ["http://x/1", "A1:2", "zz:1", "", "a:q/7", "http://x/C_1", "a"]
 
 
-def check_pd(conv_idx, op, cells, column_pos, labelled, target, strict, passthrough, ambiguous, index_kind="range", ctx=None):
+def check_pd(conv_idx, op, cells, column_pos, labelled, target, strict, passthrough, ambiguous, index_kind="range", dtype=None, ctx=None):
     import pandas as pd
 
     fails = []
@@ -211,6 +211,13 @@ def check_pd(conv_idx, op, cells, column_pos, labelled, target, strict, passthro
     index = {"range": None, "reversed": list(range(n_ - 1, -1, -1)), "offset": list(range(10, 10 + n_)), "strings": [f"r{n_ - i}" for i in range(n_)]}[index_kind]
     df = pd.DataFrame(rows, columns=labels, index=index)
     column = labels[column_pos]
+    if dtype == "category":
+        df[column] = df[column].astype("category")
+    elif dtype == "category-unused":
+        # a categorical column whose category list still holds values that occur in no row (the state after filtering rows)
+        df[column] = pd.Categorical(cells, categories=list(dict.fromkeys(["zz:9", "nodelim"] + cells + ["http://q/7"])))
+    elif dtype == "string":
+        df[column] = df[column].astype("string")
     tgt = {"none": None, "new": ("t" if labelled is True else 7), "other": labels[1 - column_pos], "empty-label": ""}[target]
     before = df.copy(deep=True)
     f = scalar_for(conv, op, ambiguous)
@@ -218,7 +225,7 @@ def check_pd(conv_idx, op, cells, column_pos, labelled, target, strict, passthro
     kw = dict(strict=strict, passthrough=passthrough)
     if op in ("pd_compress", "pd_expand"):
         kw["ambiguous"] = ambiguous
-    where = f"{op}(converter {conv_idx}, column={column!r}, target_column={tgt!r}, {kw}) on cells {cells} (index {index_kind})"
+    where = f"{op}(converter {conv_idx}, column={column!r}, target_column={tgt!r}, {kw}) on cells {cells} (index {index_kind}" + (f", dtype {dtype}" if dtype else "") + ")"
     try:
         getattr(conv, op)(df, column=column, target_column=tgt, **kw)
         exc = None
@@ -352,6 +359,15 @@ def pd_cases(tier):
                                 continue
                             for index_kind in (("range", "reversed", "offset", "strings") if len(cells) >= 2 and target in ("none", "new") else ("range",)):
                                 yield 0, op, cells, column_pos, labelled, target, strict, passthrough, ambiguous, index_kind
+    # column dtypes other than object: categorical (all categories used / some unused), pandas' string dtype
+    D = ["http://x/1", "A1:2", "a:1", "a"]
+    for cells in [[c] for c in D] + [list(t) for t in it.product(D, repeat=2)]:
+        for op in PD_OPS:
+            for dtype in ("category", "category-unused", "string"):
+                for strict, passthrough, ambiguous in FLAGS:
+                    if ambiguous and op not in ("pd_compress", "pd_expand"):
+                        continue
+                    yield 0, op, cells, 0, True, "new", strict, passthrough, ambiguous, "range", dtype
     Z = ["a:X1", "a:bad", "a:y", "A1:Xy", "http://x/X1", "http://x/bad", "a:1"]
     for cells in [[c] for c in Z] + [list(t) for t in it.product(Z[:5], repeat=2)]:
         for op in PD_OPS:
